@@ -45,17 +45,20 @@ import common
 BACKENDS = ['json', 'dbm', 'sqlite3']
 CHECKERS = ['md5', 'timestamp']
 CK_MODEL = {'md5': 'md5', 'timestamp': 'ts'}
-CK_CLASS = {'MD5Checker': 'md5', 'TimestampChecker': 'ts'}
+CK_CLASS = {'MD5Checker': 'md5', 'TimestampChecker': 'ts', 'UserMD5': 'md5', 'UserTS': 'ts'}
 NS = 10 ** 9
 T0 = 1000          # first real mtime (seconds); never 0 (a float 0.0 is falsy in MD5Checker.get_state)
 
 
+EMPTY = 99         # content id of the empty file (opt-in: only generated in the rich alphabet)
+
+
 def size_of(cid):
-    return 4 + (cid % 2)
+    return 0 if cid == EMPTY else 4 + (cid % 2)
 
 
 def content_of(cid):
-    return ('%03d' % cid).ljust(size_of(cid), 'x')
+    return '' if cid == EMPTY else ('%03d' % cid).ljust(size_of(cid), 'x')
 
 
 _MD5_CID = {}
@@ -69,6 +72,9 @@ def _md5(s):
 for _i in range(200):
     _MD5_CID[_md5(content_of(_i))] = _i
     _MD5_RES[_md5('r%d' % _i)] = _i
+
+
+CUSTOM_VALUES = {'0': 0, 'empty-str': '', 'empty-list': [], '1': 1, 'str': 'x', 'list': [0]}
 
 
 def fname(p):
@@ -131,6 +137,37 @@ class RecordingReporter(object):
 # ----------------------------------------------------------------------------------------------
 # the world: files + task definitions + one DB
 
+_USER_CHECKERS = {}
+
+
+def user_checker(kind, how):
+    """the value of `check_file_uptodate`: the builtin name, or (how = 'module' / 'nested') a user-defined subclass of the
+    builtin checker class with the same behaviour -- `UserMD5` / `UserTS`, created at module level
+    (`__qualname__ == __name__`) or inside a factory function (`__qualname__ = 'checker_factory.<locals>.UserMD5'`).
+    What doit saves and compares is the class NAME; the model's checker kind is unchanged."""
+    if not how:
+        return kind
+    if (kind, how) not in _USER_CHECKERS:
+        from doit import dependency as dep
+        base = dep.MD5Checker if kind == 'md5' else dep.TimestampChecker
+        name = 'UserMD5' if kind == 'md5' else 'UserTS'
+        if how == 'module':
+            cls = type(name, (base,), {})
+        else:
+            def checker_factory():
+                if kind == 'md5':
+                    class UserMD5(base):
+                        pass
+                    return UserMD5
+
+                class UserTS(base):
+                    pass
+                return UserTS
+            cls = checker_factory()
+        _USER_CHECKERS[(kind, how)] = cls
+    return _USER_CHECKERS[(kind, how)]
+
+
 class World(object):
     """real files in the current directory (a scratch dir), a DB file, the harness clock"""
 
@@ -144,6 +181,7 @@ class World(object):
         self.plan = {}
         self.db = 'deps-' + backend
         self.scramble = 0        # > 0: real mtimes are unique but not monotone
+        self.ckcls = None        # 'module' / 'nested': user-defined subclasses of the two checkers (see user_checker)
         self.hashseed = None     # not None: every doit invocation in a fresh interpreter, PYTHONHASHSEED varied
 
     def tick(self):
@@ -192,6 +230,13 @@ class World(object):
             return result_dep(tname(item[1]))
         if kind == 'shell':
             return 'true' if item[1] else 'false'
+        if kind == 'customv':
+            # a callable returning a NON-bool value: doit takes its truth value (None alone means "ignore the item")
+            val = CUSTOM_VALUES[item[1]]
+
+            def customv(task, values):
+                return val
+            return customv
         if kind == 'custom':
             val = item[1]
 
@@ -239,7 +284,7 @@ class World(object):
         from doit.cmd_base import ModuleTaskLoader
         ns = self.namespace()
         cfg = {'dep_file': self.db, 'backend': self.backend, 'verbosity': 0,
-               'check_file_uptodate': self.checker}
+               'check_file_uptodate': user_checker(self.checker, self.ckcls)}
         if reporter is not None:
             cfg['reporter'] = reporter
         ns['DOIT_CONFIG'] = cfg
@@ -259,7 +304,7 @@ class World(object):
         self.hashseed += 1
         req = {'backend': self.backend, 'checker': self.checker, 'ntasks': self.ntasks, 'npaths': self.npaths,
                'defs': {str(t): d for t, d in self.defs.items()}, 'plan': self.plan, 'argv': list(argv),
-               'repo': common.REPO, 'want_events': reporter is not None}
+               'repo': common.REPO, 'want_events': reporter is not None, 'ckcls': self.ckcls}
         env = dict(os.environ, PYTHONHASHSEED=str(self.hashseed), VERIF_REPO=common.REPO,
                    PYTHONDONTWRITEBYTECODE='1')
         p = subprocess.run([common.PYTHON, os.path.abspath(__file__), '--child'], input=json.dumps(req), text=True,
@@ -369,6 +414,7 @@ def run_history(case, stop_on_crash=True):
     if case.get('hashseed') is not None:
         w.hashseed = int(case['hashseed'])
     w.scramble = int(case.get('scramble') or 0)
+    w.ckcls = case.get('ckcls')
     obs = []
     for op in case['ops']:
         kind = op[0]
@@ -463,7 +509,7 @@ def model_def(d):
     """the model's view of a definition: `getargs` from task x is the uptodate item result_dep(x) that
     Task._init_getargs appends (the harness always lists x in task_dep too, so x is processed first: without that the
     implicit item is a *setup* dependency and the order of check and execution belongs to M1)"""
-    utd = [list(i) for i in d['uptodate']]
+    utd = [['custom', bool(CUSTOM_VALUES[i[1]])] if i[0] == 'customv' else list(i) for i in d['uptodate']]
     if d.get('getargs') is not None:
         utd.append(['res', d['getargs']])
     return {'deps': list(d['deps']), 'targets': list(d['targets']), 'uptodate': utd}
@@ -917,7 +963,125 @@ def _scn_group(case):
             'script': GROUP_SCRIPT}
 
 
-SCENARIOS = {'calc': _scn_calc, 'group': _scn_group}
+CFG_SCRIPT = [('run', None), ('run', None), ('bump', 'config'), ('run', None), ('run', None), ('edit', 'main'),
+              ('run', None), ('bump', 'config'), ('run', None), ('run', None)]
+
+
+def _scn_cfgdict(case):
+    """tools.config_changed over a DICT that changes while the object lives.
+    variant 'same-object': one module-level config_changed(OPTIONS) used by `build` (file_dep [main]); the runs of the
+      script happen in ONE process with the same object (an embedding application, the %doit magic, a watch loop) and
+      OPTIONS is mutated in place between runs ('bump config').
+    variant 'shared-filled': a fresh object per run (one process per run) over a dict that task `probe` fills at run
+      time, shared by `stamp` (checked BEFORE probe ran) and `build` (task_dep [probe]); 'bump config' changes what probe
+      finds.  probe has no criteria (always executed, not monitored)."""
+    from doit.tools import config_changed
+    if case['variant'] == 'same-object':
+        options = {'level': 0}
+        chk = config_changed(options)
+        names = ['build']
+
+        def mk(state):
+            return {'task_build': lambda: {'actions': [lambda: True], 'file_dep': ['main'], 'uptodate': [chk]}}
+
+        def on_bump(arg, state):
+            options['level'] = state[arg]
+
+        def effect(kind, arg):
+            if kind == 'bump' or (kind == 'edit' and arg == 'main'):
+                return {'build'}
+            return set()
+        return {'names': names, 'mk': mk, 'effect': effect, 'on_bump': on_bump, 'sel': [], 'files': ['main'],
+                'script': CFG_SCRIPT}
+    names = ['stamp', 'build']
+
+    def mk(state):
+        toolchain = {}
+        chk = config_changed(toolchain)
+
+        def probe():
+            toolchain['cc'] = 'gcc-%d' % state.get('config', 0)
+        return {'task_stamp': lambda: {'actions': [lambda: True], 'file_dep': ['main'], 'uptodate': [chk]},
+                'task_probe': lambda: {'actions': [probe]},
+                'task_build': lambda: {'actions': [lambda: True], 'file_dep': ['main'], 'task_dep': ['probe'],
+                                       'uptodate': [chk]}}
+
+    def effect(kind, arg):
+        if kind == 'bump':
+            return {'build'}
+        if kind == 'edit' and arg == 'main':
+            return {'stamp', 'build'}
+        return set()
+    return {'names': names, 'mk': mk, 'effect': effect, 'sel': ['stamp', 'probe', 'build'], 'files': ['main'],
+            'script': CFG_SCRIPT}
+
+
+def cfgdict_cases(full):
+    out = []
+    n = 0
+    for variant in ('same-object', 'shared-filled'):
+        for par in (None, 'thread'):
+            for b in BACKENDS:
+                n += 1
+                if not full and not (par is None and n % 3 != 2):
+                    continue
+                out.append({'kind': 'cfgdict', 'variant': variant, 'backend': b, 'checker': CHECKERS[n % 2], 'par': par,
+                            'ntasks': 3, 'npaths': 1, 'ops': []})
+    return out
+
+
+DICTRES_SCRIPT = [('run', None), ('run', None), ('run', None), ('bump', 'value'), ('run', None), ('run', None),
+                  ('edit', 'main'), ('run', None), ('run', None)]
+DICTRES_VARIANTS = ['tuple', 'int-keys', 'nested-tuple', 'plain', 'string']
+
+
+def _scn_dictres(case):
+    """a source task `src` with no criteria (executed in every run, not monitored) whose python-action returns a dict
+    (saved as `result:` and `_values_:`) containing a tuple / int keys / a nested tuple / only JSON-stable values, or a
+    plain string; consumers with a file_dep of their own: `report` (uptodate [result_dep('src')]) and `summary` (getargs
+    from src + task_dep [src]).  'bump value' changes what src computes -> the consumers; main edited -> the consumers."""
+    variant = case['variant']
+    names = ['report', 'summary']
+
+    def result(state):
+        k = state.get('value', 0)
+        if variant == 'tuple':
+            return {'pair': (1, k), 'name': 'x'}
+        if variant == 'int-keys':
+            return {1: 'one', 2: k}
+        if variant == 'nested-tuple':
+            return {'rows': [(1, 2), (3, k)], 'meta': {'shape': (2, 2)}}
+        if variant == 'plain':
+            return {'items': [1, k], 'name': 'x'}
+        return 'value-%d' % k
+
+    def mk(state):
+        from doit.task import result_dep
+        return {'task_src': lambda: {'actions': [lambda: result(state)]},
+                'task_report': lambda: {'actions': [lambda: True], 'file_dep': ['main'], 'uptodate': [result_dep('src')]},
+                'task_summary': lambda: {'actions': [lambda v=None: True], 'file_dep': ['main'],
+                                         'getargs': {'v': ('src', None)}, 'task_dep': ['src']}}
+
+    def effect(kind, arg):
+        return set(names) if kind in ('bump', 'edit') else set()
+    return {'names': names, 'mk': mk, 'effect': effect, 'sel': [], 'files': ['main'], 'script': DICTRES_SCRIPT}
+
+
+def dictres_cases(full):
+    out = []
+    n = 0
+    for variant in DICTRES_VARIANTS:
+        for par in (None, 'thread'):
+            for b in BACKENDS:
+                n += 1
+                if not full and not (par is None and (n + DICTRES_VARIANTS.index(variant)) % 3 == 0):
+                    continue
+                out.append({'kind': 'dictres', 'variant': variant, 'backend': b, 'checker': CHECKERS[n % 2], 'par': par,
+                            'ntasks': 3, 'npaths': 1, 'ops': []})
+    return out
+
+
+SCENARIOS = {'calc': _scn_calc, 'group': _scn_group, 'cfgdict': _scn_cfgdict, 'dictres': _scn_dictres}
 
 
 def group_cases(full):
@@ -978,6 +1142,14 @@ def evaluate_calc(case):
                 pending |= scn['effect'](kind, arg)
                 v.obs.append({'kind': 'touch', 'what': arg})
                 continue
+            if kind == 'bump':
+                # something that is not a file changes (a configuration dict, the value a task computes)
+                state[arg] = state.get(arg, 0) + 1
+                if 'on_bump' in scn:
+                    scn['on_bump'](arg, state)
+                pending |= scn['effect'](kind, arg)
+                v.obs.append({'kind': 'bump', 'what': arg})
+                continue
             argv = ['run']
             if case['par'] == 'thread':
                 argv += ['-n', '2', '-P', 'thread']
@@ -1017,6 +1189,36 @@ def evaluate_calc(case):
 
 
 def render_calc(case):
+    if case.get('kind') in ('cfgdict', 'dictres'):
+        par = ' -n 2 -P thread' if case.get('par') else ''
+        if case['kind'] == 'cfgdict' and case['variant'] == 'same-object':
+            out = ['config_changed(dict) scenario, ONE process, same object in every run: backend=%s checker=%s%s'
+                   % (case['backend'], case['checker'], par),
+                   "chk = config_changed(OPTIONS)          # module level, OPTIONS = {'level': 0}",
+                   "build = {file_dep: ['main'], uptodate: [chk]}"]
+            script, sel = CFG_SCRIPT, ''
+        elif case['kind'] == 'cfgdict':
+            out = ['config_changed(dict) scenario, fresh objects per run, dict filled at run time: backend=%s checker=%s%s'
+                   % (case['backend'], case['checker'], par),
+                   'chk = config_changed(TOOLCHAIN)        # TOOLCHAIN = {} when the dodo file is loaded',
+                   "stamp = {file_dep: ['main'], uptodate: [chk]}",
+                   "probe = {actions: [TOOLCHAIN['cc'] = <what it finds>]}",
+                   "build = {file_dep: ['main'], task_dep: ['probe'], uptodate: [chk]}"]
+            script, sel = CFG_SCRIPT, ' stamp probe build'
+        else:
+            out = ['dict-result scenario (%s): backend=%s checker=%s%s' % (case['variant'], case['backend'],
+                                                                          case['checker'], par),
+                   'src = {actions: [returns %s]}            # no criteria: executed in every run'
+                   % {'tuple': "{'pair': (1, k), 'name': 'x'}", 'int-keys': "{1: 'one', 2: k}",
+                      'nested-tuple': "{'rows': [(1, 2), (3, k)], 'meta': {'shape': (2, 2)}}",
+                      'plain': "{'items': [1, k], 'name': 'x'}", 'string': "'value-<k>'"}[case['variant']],
+                   "report = {file_dep: ['main'], uptodate: [result_dep('src')]}",
+                   "summary = {file_dep: ['main'], getargs: {'v': ('src', None)}, task_dep: ['src']}"]
+            script, sel = DICTRES_SCRIPT, ''
+        for kind, arg in script:
+            out.append('doit run' + sel if kind == 'run' else
+                       ('change the configuration / computed value' if kind == 'bump' else '%s %s' % (kind, arg)))
+        return out
     if case.get('kind') == 'group':
         out = ['group scenario: backend=%s checker=%s sub-tasks=%d%s' % (
             case['backend'], case['checker'], case['subs'], ' -n 2 -P thread' if case['par'] else ''),
@@ -1047,6 +1249,8 @@ def render(case):
     extra = ''
     if case.get('scramble'):
         extra += ' mtimes-non-monotone(%d)' % case['scramble']
+    if case.get('ckcls'):
+        extra += ' checker-classes=user-defined(%s)' % case['ckcls']
     if case.get('hashseed') is not None:
         extra += ' (every doit invocation in a fresh interpreter, PYTHONHASHSEED=%d+k)' % case['hashseed']
     out = ['backend=%s checker=%s tasks=%d files=%d%s' % (case['backend'], case['checker'], case['ntasks'],
@@ -1354,7 +1558,48 @@ def fragment_own_dep_rewrite(rng, sh, defs):
     return ops
 
 
-def gen_case(rng, parallel=False, informational=False):
+def enrich(case, rr):
+    """opt-in post-pass (`gen_case(..., rich=True)`, used by C03/C04 only): unusual but legal inputs --
+    user-defined checker classes (module level / made by a factory function), uptodate callables returning NON-bool
+    values (0, '', [], 1, 'x', [0]), the EMPTY file (plus touch / rewrite of it)"""
+    import copy
+    c = copy.deepcopy(case)
+    r = rr.random()
+    if r < 0.18:
+        c['ckcls'] = 'nested'
+    elif r < 0.30:
+        c['ckcls'] = 'module'
+    falsy, truthy = ['0', 'empty-str', 'empty-list'], ['1', 'str', 'list']
+    empties = []
+    ops = []
+    for op in c['ops']:
+        if op[0] == 'redefine':
+            utd = []
+            for it in op[2]['uptodate']:
+                if it[0] == 'custom' and it[1] is not None and rr.random() < 0.6:
+                    utd.append(['customv', rr.choice(truthy if it[1] else falsy)])
+                else:
+                    utd.append(it)
+            if rr.random() < 0.12:
+                utd.append(['customv', rr.choice(truthy + truthy + falsy)])
+            op[2]['uptodate'] = utd
+        elif op[0] == 'edit' and rr.random() < 0.12:
+            op[2] = EMPTY
+            empties.append(op[1])
+        ops.append(op)
+    if empties and rr.random() < 0.7:
+        p = rr.choice(empties)
+        run = ['run', {'sel': None, 'always': False, 'cont': True, 'par': None, 'plan': {}}]
+        ops += [['edit', p, EMPTY], run, rr.choice([['touch', p], ['edit', p, EMPTY]]), copy.deepcopy(run), copy.deepcopy(run)]
+    c['ops'] = ops
+    return c
+
+
+def gen_case(rng, parallel=False, informational=False, rich=False):
+    if rich:
+        import random as _random
+        rr = _random.Random(rng.random())
+        return enrich(gen_case(rng, parallel=parallel, informational=informational), rr)
     ntasks = rng.choice([1, 1, 1, 1, 2, 2, 2, 3, 3, 4])
     nsrc = rng.choice([1, 2, 2, 3])
     sh = Shape(ntasks, nsrc)
@@ -1583,7 +1828,7 @@ def nontrivial(case, v):
 
 def strip(case):
     return {k: case[k] for k in ('backend', 'checker', 'ntasks', 'npaths', 'ops', 'hashseed', 'scramble', 'kind', 'order', 'consumers',
-                                    'par', 'subs') if k in case}
+                                    'par', 'subs', 'ckcls', 'variant') if k in case}
 
 
 def failing_predicate(prop):
@@ -1693,6 +1938,11 @@ def run_property(ctx, prop, n_random, exh_len, macro_len, parallel_share=0.0, n_
     ctx.extra['group_result_dep_scenarios'] = len(grp)
     for c in grp:
         items.append(('group-scenario', c))
+    full = (ctx.tier != 'quick' or ctx.boost > 1)
+    more = cfgdict_cases(full) + dictres_cases(full)
+    ctx.extra['config_dict_and_dict_result_scenarios'] = len(more)
+    for c in more:
+        items.append((c['kind'] + '-scenario', c))
     ex = exhaustive_cases(exh_len, macro_len, shared_len, utd_len)
     ex.sort(key=lambda c: len(c['word'].split(':')[-1]))
     ctx.extra['exhaustive_small_scope'] = {
@@ -1712,7 +1962,7 @@ def run_property(ctx, prop, n_random, exh_len, macro_len, parallel_share=0.0, n_
             rnd.append(('corpus-mutation', mutate_case(r, r.choice(seeds))))
         else:
             par = r.random() < parallel_share
-            c = gen_case(r, parallel=par)
+            c = gen_case(r, parallel=par, rich=True)
             if not par and r.random() < sub_share:
                 c['hashseed'] = r.randrange(1, 1000)
             rnd.append(('random-parallel' if par else 'random', c))
@@ -1788,6 +2038,7 @@ def _child_main():
     w = World(req['backend'], req['checker'], req['ntasks'], req['npaths'])
     w.defs = {int(t): d for t, d in req['defs'].items()}
     w.plan = req['plan']
+    w.ckcls = req.get('ckcls')
     rep = RecordingReporter() if req['want_events'] else None
     code, out, err = w.doit(req['argv'], rep)
     print(json.dumps({'code': code, 'out': out, 'err': err, 'events': rep.events if rep else []}))
